@@ -425,3 +425,67 @@ func c17StartingPhase(p *load.Program, r *core.Report, appT *types.Named, start,
 		}
 	}
 }
+
+// c17StartMode: A10 — which mode a run gets. Every call of application.start is given the mode of the
+// application's SPECIFICATION (plain start), a mode constant (the StartPermanent/Transient/Temporary
+// variants), or a caller's mode parameter that is replaced by the specification's mode when it is
+// zero (the remote start without explicit mode). Never the run-scoped field a.mode: stop() leaves
+// Temporary there, so a permanent application that is stopped and started again would run as a
+// temporary one.
+func c17StartMode(p *load.Program, r *core.Report, appT *types.Named, start *ssa.Function) {
+	rule := "C17.A10 start-mode-comes-from-the-specification"
+	r.Floor(rule, 5)
+	seq := map[string]int{}
+	classify := func(v ssa.Value) string {
+		v = resolveLocalCopy(v)
+		if _, ok := constInt(v); ok {
+			return "const"
+		}
+		if _, ok := v.(*ssa.Parameter); ok {
+			return "param"
+		}
+		if _, path, ok := fieldPath(v); ok && len(path) >= 2 && path[len(path)-2] == "spec" && path[len(path)-1] == "Mode" {
+			return "spec"
+		}
+		if _, path, ok := fieldPath(v); ok && len(path) >= 1 && path[len(path)-1] == "mode" {
+			return "run-field"
+		}
+		return "?"
+	}
+	for _, f := range funcsOfPkgs(p, "node") {
+		eachInstr(f, func(in ssa.Instruction) {
+			c, ok := in.(*ssa.Call)
+			if !ok || staticCallee(c.Common()) != start {
+				return
+			}
+			fn := fname(f)
+			seq[fn]++
+			key := fmt.Sprintf("C17.A10|%s|start#%d", fn, seq[fn])
+			inst := "the run is started with the specification's mode, a mode constant, or the caller's mode defaulted to the specification's"
+			arg := c.Common().Args[1]
+			kinds := map[string]bool{}
+			if ph, isPhi := arg.(*ssa.Phi); isPhi {
+				for _, e := range ph.Edges {
+					kinds[classify(e)] = true
+				}
+			} else {
+				kinds[classify(arg)] = true
+			}
+			switch {
+			case kinds["run-field"]:
+				r.Bad(rule, key, fn, p.Pos(in.Pos()), inst, "the mode is read from the application's run-scoped field: stop() leaves Temporary there (and the mode-specific starts their own), so after a stop a permanent application is started again as a temporary one — a member's termination no longer stops it")
+			case kinds["?"]:
+				r.Unk(rule, key, fn, p.Pos(in.Pos()), inst, "cannot tell where the mode comes from")
+			case kinds["param"] && !kinds["spec"]:
+				r.Bad(rule, key, fn, p.Pos(in.Pos()), inst, "the caller's mode is handed on as it is: a request without an explicit mode carries 0, which is no mode at all — the application behaves as a temporary one whatever its specification says")
+			default:
+				var ks []string
+				for k := range kinds {
+					ks = append(ks, k)
+				}
+				sort.Strings(ks)
+				r.OK(rule, key, fn, p.Pos(in.Pos()), inst, "mode from: "+strings.Join(ks, ", "))
+			}
+		})
+	}
+}
